@@ -1,8 +1,47 @@
 import PybtexModel.Drv.Json
+import PybtexModel.Drv.C04
+import PybtexModel.Model.BibParse
 open Lean
 namespace Pybtex.Drv.C01
+open Pybtex.Bib
 
-/-- driver ops of this property: (op name, handler) -/
-def handlers : List (String × (Json → Except String Json)) := []
+def errJ (e : Err) : Json :=
+  let (cls, msg) : String × Str := match e.kind with
+    | .tokenRequired d => ("TokenRequired", (d ++ " expected").toList)
+    | .prematureEOF => ("PrematureEOF", "premature end of file".toList)
+    | .tooManyBraces => ("PybtexSyntaxError", "too many nested braces".toList)
+    | .unbalancedBraces => ("PybtexSyntaxError", "unbalanced braces".toList)
+    | .undefinedMacro n => ("UndefinedMacro", n)
+    | .duplicateField k f => ("DuplicateField", "entry with key ".toList ++ k ++ " has a duplicate ".toList ++ f ++ " field".toList)
+    | .repeatedEntry k => ("BibliographyDataError", "repeated bibliography entry: ".toList ++ k)
+    | .invalidName n => ("InvalidNameString", n)
+    | .nameTooDeep => ("BibTeXError", "too many nested braces".toList)
+    | .internal => ("INTERNAL", [])
+  arr [Json.str cls, optJ nat e.line, strToJson msg]
+
+def personJ (p : Person) : Json :=
+  arr [strs p.first, strs p.middle, strs p.prelast, strs p.last, strs p.lineage]
+
+def entryJ (e : Bib.Entry) : Json :=
+  obj [("key", strToJson e.key), ("type", strToJson e.type), ("orig_type", strToJson e.origType),
+       ("fields", arr (e.fields.map fun f => arr [strToJson f.1, strToJson f.2])),
+       ("persons", arr (e.persons.map fun r => arr [strToJson r.1, arr (r.2.map personJ)]))]
+
+def resultJ (r : St × Option Err) : Json :=
+  obj [("entries", arr (r.1.db.entries.map entryJ)), ("preamble", strs r.1.db.preamble),
+       ("errors", arr (r.1.errs.map errJ)), ("raised", optJ errJ r.2)]
+
+def bibparse (j : Json) : Except String Json := do
+  let text ← getStr j "text"
+  let strict ← getBool j "strict"
+  let wanted ← match j.getObjVal? "wanted" with
+    | .ok Json.null => pure none
+    | .ok (Json.arr a) => do
+      let l ← a.toList.mapM jsonToStr
+      pure (some l)
+    | _ => pure none
+  pure (obj [("out", resultJ (parseBib text strict wanted))])
+
+def handlers : List (String × (Json → Except String Json)) := [("bibparse", bibparse)]
 
 end Pybtex.Drv.C01
